@@ -86,7 +86,12 @@ func containsSymbol(s, sym string) bool {
 // reads then become `(select row p)` with the bound variable as the bare index, which is an arithmetic-free
 // E-matching trigger. The substitution v = p - (soff S) is a bijection on Int, so the quantified formula is
 // equivalent. Returns the new body and true when the rewrite applies.
-func absolutize(body, v, p string) (string, bool) {
+func absolutize(body, v, p string, siblings []string) (string, bool) {
+	if strings.Contains(body, "(let ((a!") {
+		// let-bound argument names of inlined spec functions: substitute the definitions first, so that a slice
+		// header found inside a let can be used as origin for occurrences of v outside that let as well
+		body = expandLets(body)
+	}
 	needle := " " + v + ")"
 	counts := map[string]int{}
 	var order []string
@@ -103,7 +108,10 @@ func absolutize(body, v, p string) (string, bool) {
 			continue
 		}
 		inner := term[3 : len(term)-len(needle)] // "(soff S)"
-		if matchParen(inner, 0) != len(inner)-1 || strings.Contains(inner, "!q") {
+		if matchParen(inner, 0) != len(inner)-1 || containsSymbol(inner, v) || bindsAnyOf(body, inner) || mentionsAny(inner, siblings) {
+			// (a slice header that mentions v itself, a variable of the same binder list, or a variable bound by a
+			// quantifier inside this body, is not a usable origin; variables bound further out - and let-bound
+			// names still here after expandLets - are in scope wherever v is)
 			continue
 		}
 		if counts[inner] == 0 {
@@ -202,4 +210,66 @@ func containsSymbolLoose(s, sym string) bool {
 		}
 		i = k + 1
 	}
+}
+
+// expandLets replaces every `(let ((n1 d1) ... (nk dk)) B)` whose names are the engine's own a!N by B with the
+// definitions substituted (innermost first; the names are globally unique, so no capture is possible).
+func expandLets(s string) string {
+	for guard := 0; guard < 10000; guard++ {
+		i := strings.LastIndex(s, "(let ((a!")
+		if i < 0 {
+			return s
+		}
+		end := matchParen(s, i)
+		if end < 0 {
+			return s
+		}
+		bs := i + len("(let ")
+		be := matchParen(s, bs)
+		if be < 0 {
+			return s
+		}
+		binds := s[bs+1 : be]
+		body := strings.TrimSpace(s[be+1 : end])
+		for k := 0; k < len(binds); {
+			if binds[k] != '(' {
+				k++
+				continue
+			}
+			e := matchParen(binds, k)
+			if e < 0 {
+				return s
+			}
+			b := binds[k+1 : e]
+			sp := strings.IndexByte(b, ' ')
+			if sp < 0 {
+				return s
+			}
+			body = replaceSymbol(body, b[:sp], strings.TrimSpace(b[sp+1:]))
+			k = e + 1
+		}
+		s = s[:i] + body + s[end+1:]
+	}
+	return s
+}
+
+var boundVarRe = regexp.MustCompile(`[A-Za-z_][A-Za-z_0-9]*!q[0-9]+p?`)
+
+// bindsAnyOf: body contains a binder for one of the bound-variable symbols (x!qN) that occur in term.
+func bindsAnyOf(body, term string) bool {
+	for _, sym := range boundVarRe.FindAllString(term, -1) {
+		if strings.Contains(body, "("+sym+" ") {
+			return true
+		}
+	}
+	return false
+}
+
+func mentionsAny(term string, syms []string) bool {
+	for _, sy := range syms {
+		if containsSymbol(term, sy) {
+			return true
+		}
+	}
+	return false
 }
